@@ -452,6 +452,10 @@ pub fn check_c05(case: &DispatchCase, cx: &mut Ctx) {
             eprintln!("DUMP path nodes {:?}", dp.iter().map(|n| (n.kind, n.link, n.time.round())).collect::<Vec<_>>());
         }
         eprintln!("DUMP fwd {:?} rev {:?}", run.built.corridor.fwd, run.built.corridor.rev);
+        for s in &run.snaps {
+            eprintln!("DUMP snap moved {} holders {:?} n_auths {}", s.moved, s.holders, s.n_auths);
+        }
+        eprintln!("DUMP trains {:?}", case.trains.iter().map(|t| (t.east, t.train.init_time, t.train.length())).collect::<Vec<_>>());
     }
     cx.label_if(rerouted, "train_rerouted_off_shortest_path");
     cx.label_if(rewound, "train_rewound");
